@@ -11,6 +11,10 @@ through __main__, the file then lacks the definitions and every dependent obliga
   parse_unix_mode     : the parse_rw table; for each (slice, shift); for each special position the (character, bits) pairs and
                         that the final else raises ValueError
   AsyncLister.__anext__ : the tuple of names that are skipped (`str(name) in (...)` followed by `continue`) and the recursion test
+  F12 repair            : the `if <test>: raise ValueError` guards directly after `s = s[12:].strip()` (unix), after
+                          `filename = line[next_space:].lstrip()` (windows), after `... = line.partition(' ')` (MLSx) and after
+                          `name, info = cls.parse_line(line)` in the lister -- emitted as "<test>:<class>", "" when absent, so the
+                          unrepaired source computes `false` in the obligation instead of failing the translator
 """
 import ast
 from pathlib import Path
@@ -196,6 +200,44 @@ def lister_facts(tree):
     return skips[0], rec[0]
 
 
+def raise_guard(stmts, after_pred, what):
+    """the `if <test>: raise <Class>(...)` statement that directly follows the first statement satisfying after_pred:
+    returns "<test>:<Class>", or "" when the next statement is not such a guard (the unrepaired shape)"""
+    for k, st in enumerate(stmts):
+        if after_pred(st):
+            nxt = stmts[k + 1] if k + 1 < len(stmts) else None
+            if isinstance(nxt, ast.If) and len(nxt.body) == 1 and isinstance(nxt.body[0], ast.Raise) and not nxt.orelse:
+                exc = nxt.body[0].exc
+                cls = exc.func.id if isinstance(exc, ast.Call) and isinstance(exc.func, ast.Name) else exc.id if isinstance(exc, ast.Name) else None
+                if cls is None:
+                    raise Unclassified(f"{what}: guard raises {src(exc)}")
+                return f"{src(nxt.test)}:{cls}"
+            return ""
+    raise Unclassified(f"{what}: anchor statement not found")
+
+
+def name_guards(tree):
+    u = find_func(tree, "parse_list_line_unix")
+    unix = raise_guard(u.body, lambda st: isinstance(st, ast.Assign) and src(st) == "s = s[12:].strip()", "parse_list_line_unix")
+    w = find_func(tree, "parse_list_line_windows")
+    win = raise_guard(w.body, lambda st: isinstance(st, ast.Assign) and src(st) == "filename = line[next_space:].lstrip()", "parse_list_line_windows")
+    m = find_func(tree, "parse_mlsx_line")
+    parts = [st for st in m.body if isinstance(st, ast.Assign) and isinstance(st.value, ast.Call) and src(st.value) == "line.partition(' ')"]
+    if len(parts) != 1:
+        raise Unclassified("parse_mlsx_line: expected one `... = line.partition(' ')`")
+    targets = src(parts[0].targets[0])
+    mlsx = raise_guard(m.body, lambda st: st is parts[0], "parse_mlsx_line")
+    return unix, win, targets, mlsx
+
+
+def lister_type_guard(tree):
+    f = find_func(tree, "__anext__")
+    loops = [n for n in f.body if isinstance(n, ast.While)]
+    if len(loops) != 1:
+        raise Unclassified("__anext__: expected one while loop")
+    return raise_guard(loops[0].body, lambda st: isinstance(st, ast.Assign) and src(st) == "name, info = cls.parse_line(line)", "__anext__")
+
+
 def generate(src_dir):
     path = Path(src_dir) / "client.py"
     tree = ast.parse(path.read_text())
@@ -204,6 +246,8 @@ def generate(src_dir):
     ppat, pbody = pasv_facts(tree)
     table, slices, specials = unix_mode_facts(tree)
     skip, rec = lister_facts(tree)
+    g_unix, g_win, mlsx_targets, g_mlsx = name_guards(tree)
+    g_type = lister_type_guard(tree)
     T = emit.text
     out = [emit.HEADER.format(src=str(path))]
     out.append("Definition parser_facts_translator_ok : bool := true.\n")
@@ -222,4 +266,10 @@ def generate(src_dir):
                + emit.lst([f"({emit.z(i)}, {emit.lst([f'({emit.z(ord(ch))}, {emit.z(v)})' for ch, v in ps])})" for i, ps in specials]) + ".\n")
     out.append(f"Definition lister_skip : list (list Z) := {emit.lst([T(s) for s in skip])}.")
     out.append(f"Definition lister_recursion_test : list Z := {T(rec)}.")
+    out.append("\n(* the guards of the F12 repair: `<test>:<class raised>`, empty when the statement is absent *)")
+    out.append(f"Definition unix_name_guard : list Z := {T(g_unix)}.")
+    out.append(f"Definition windows_name_guard : list Z := {T(g_win)}.")
+    out.append(f"Definition mlsx_partition_targets : list Z := {T(mlsx_targets)}.")
+    out.append(f"Definition mlsx_name_guard : list Z := {T(g_mlsx)}.")
+    out.append(f"Definition lister_type_guard : list Z := {T(g_type)}.")
     return "\n".join(out) + "\n"
